@@ -11,7 +11,7 @@ Definition b2zh (b : bool) : Z := if b then 1 else 0.
 Definition hyp_safe_run (k : list expr) (args : list Z) : list Z :=
   [b2zh (forallb (fun e => rok (srun (map of_bits args) e)) k)].
 Definition hyp_safe (k : list expr) (args : list Z) : list Z :=
-  [b2zh (forallb (safeb (map of_bits args)) k)].
+  [b2zh (forallb (fun e => snd (safe1 (map of_bits args) e)) k)].
 (* in addition: the exact deviation of every output from its exact-arithmetic value is within the proved bound err_run
    (a sanity check of the theorem's instance, computed in rational arithmetic) *)
 Definition hyp_safe_run_dev (k : list expr) (args : list Z) : list Z :=
